@@ -96,14 +96,10 @@ impl ValidatorSync for KeepUniqueValidator {
                     if let Some((matched_line, line_range)) = line_match
                         && !seen.insert(matched_line)
                     {
-                        let violation_line_number = block_with_context
-                            .block
-                            .start_tag_position_range
-                            .start()
-                            .line
-                            + line_number;
-                        let line_character_start = *line_range.start(); // Start position is 1-based.
-                        let line_character_end = *line_range.end(); // End position is 1-based and inclusive.
+                        let (violation_line_number, line_offset) =
+                            block_with_context.block.content_line_position(line_number);
+                        let line_character_start = line_offset + *line_range.start(); // Start position is 1-based.
+                        let line_character_end = line_offset + *line_range.end(); // End position is 1-based and inclusive.
                         violations
                             .entry(file_path.clone())
                             .or_insert_with(Vec::new)
